@@ -81,14 +81,87 @@ pub fn drive(args: &[String]) {
         match res {
             Ok(recs) => {
                 for (w, h, px, bytes, same) in recs {
-                    out.rec(&json!({"id": id, "w": w, "h": h, "px": px, "bytes": bytes, "same": same, "ncol": ncol, "panic": ""}));
+                    out.rec(&json!({"id": id, "t": "img", "w": w, "h": h, "px": px, "bytes": bytes, "same": same, "ncol": ncol, "panic": ""}));
                     id += 1;
                 }
             }
             Err(m) => {
-                out.rec(&json!({"id": id, "w": w, "h": h, "px": [], "bytes": [], "same": true, "ncol": ncol, "panic": m}));
+                out.rec(&json!({"id": id, "t": "img", "w": w, "h": h, "px": [], "bytes": [], "same": true, "ncol": ncol, "panic": m}));
                 id += 1;
             }
         }
+    }
+    // ---- images large enough for the palette to be built from a SAMPLE of the pixels (>= 51200 pixels after the
+    // height is cut to a multiple of six).  Interpreting 50 000 pixels in TLA+ is too slow: only the control items
+    // (raster attributes, colour definitions, colour selections) are extracted here by a lexical scan and judged.
+    let nbig = arg_u64(args, "--big", 2) as usize;
+    for k in 0..nbig {
+        let (w, h) = (300 + rnd.below(10), 171 + rnd.below(12));
+        let ncol = [300usize, 1000, 5000, 40000][k % 4];
+        let img = Image::from(SurfaceOwned::new_with(Size::new(h, w), |p| {
+            let v = (p.row * w + p.col) % ncol;
+            RGBA::new((v % 101) as u8 * 2, ((v / 101) % 101) as u8 * 2, ((v / 10201) % 101) as u8 * 2 + (rnd.below(2) as u8), 255)
+        }));
+        let res = guarded(|| {
+            let mut hnd = SixelImageHandler::new(None);
+            let mut b1 = Vec::new();
+            hnd.draw(&mut b1, &img, Position::new(0, 0)).unwrap();
+            let mut b2 = Vec::new();
+            hnd.draw(&mut b2, &img, Position::new(1, 1)).unwrap();
+            (b1.clone(), b1 == b2)
+        });
+        match res {
+            Ok((bytes, same)) => {
+                // lexical scan: "Pan;Pad;Ph;Pv  and  #n  /  #n;2;r;g;b
+                let mut raster: Vec<u64> = Vec::new();
+                let mut defs: Vec<Vec<u64>> = Vec::new();
+                let mut selected: std::collections::BTreeSet<u64> = Default::default();
+                let mut i = 0;
+                let nums = |i: &mut usize| -> Vec<u64> {
+                    let mut out = Vec::new();
+                    loop {
+                        let st = *i;
+                        let mut v = 0u64;
+                        while *i < bytes.len() && bytes[*i].is_ascii_digit() {
+                            v = v.saturating_mul(10).saturating_add((bytes[*i] - b'0') as u64);
+                            *i += 1;
+                        }
+                        if *i == st {
+                            break;
+                        }
+                        out.push(v.min(1_000_000));
+                        if *i < bytes.len() && bytes[*i] == b';' {
+                            *i += 1;
+                        } else {
+                            break;
+                        }
+                    }
+                    out
+                };
+                while i < bytes.len() {
+                    match bytes[i] {
+                        b'"' => {
+                            i += 1;
+                            raster = nums(&mut i);
+                        }
+                        b'#' => {
+                            i += 1;
+                            let v = nums(&mut i);
+                            if v.len() == 1 {
+                                selected.insert(v[0]);
+                            } else {
+                                defs.push(v);
+                            }
+                        }
+                        _ => i += 1,
+                    }
+                }
+                let well_framed = bytes.starts_with(b"\x1bPq") && bytes.ends_with(b"\x1b\\");
+                out.rec(&json!({"id": id, "t": "big", "w": w, "h": h, "px": [], "bytes": [], "same": same, "ncol": ncol, "panic": "",
+                                 "raster": raster, "defs": defs, "selected": selected.into_iter().collect::<Vec<_>>(), "framed": well_framed}));
+            }
+            Err(m) => out.rec(&json!({"id": id, "t": "big", "w": w, "h": h, "px": [], "bytes": [], "same": true, "ncol": ncol, "panic": m, "raster": [], "defs": [], "selected": [], "framed": true})),
+        }
+        id += 1;
     }
 }
